@@ -19,6 +19,7 @@ import (
 	"sync/atomic"
 	"time"
 
+	"github.com/iotaledger/hive.go/runtime/debug"
 	"github.com/iotaledger/hive.go/runtime/options"
 	"github.com/iotaledger/hive.go/runtime/syncutils"
 	"github.com/iotaledger/hive.go/runtime/workerpool"
@@ -76,10 +77,20 @@ func quiescent() bool {
 			running++
 		case "runnable", "syscall", "sleep", "preempted", "copystack":
 			return false
+		default:
+			// a goroutine that waits for the garbage collector (assist credit, a phase change, stop-the-world) is not blocked:
+			// frequent in the debug mode, where every Submit allocates a 1 MiB stack-trace buffer
+			for _, p := range gcStates {
+				if strings.HasPrefix(string(m[1]), p) {
+					return false
+				}
+			}
 		}
 	}
 	return running <= 1
 }
+
+var gcStates = []string{"GC ", "garbage collection", "stopping the world", "flushing proc caches", "wait for GC cycle", "wait until GC ends", "waiting"}
 
 func settle(timeout time.Duration) bool {
 	deadline := time.Now().Add(timeout)
@@ -88,7 +99,7 @@ func settle(timeout time.Duration) bool {
 		runtime.Gosched()
 		if quiescent() {
 			ok++
-			if ok >= 2 {
+			if ok >= 2 && !debugMode || ok >= 4 {
 				return true
 			}
 		} else {
@@ -1038,6 +1049,10 @@ func main() {
 		seed     = flag.Uint64("seed", 1, "seed")
 		out      = flag.String("out", "cases.v", "cases file")
 		stats    = flag.String("stats", "stats.json", "stats file")
+		nDeb     = flag.Int("debounce", 40, "random DebounceFunc cases (besides the directed ones)")
+		dbg      = flag.Bool("debug", false, "run everything in a child process with debug.SetEnabled(true)")
+		dbgChild = flag.Bool("debugchild", false, "internal: this is the child of --debug")
+		cur      = flag.String("cur", "", "internal: file that names the running case")
 	)
 	// subcommand: `group` = group.go aggregation harness (group.go in this directory); anything else = pool harness
 	if len(os.Args) > 1 && os.Args[1] == "group" {
@@ -1050,6 +1065,14 @@ func main() {
 	}
 	args := flagArgs()
 	flag.CommandLine.Parse(args)
+	if *dbg {
+		debugParent(args, *out, *stats)
+		return
+	}
+	if *dbgChild {
+		debugMode, curFile = true, *cur
+		debug.SetEnabled(true)
+	}
 	installHooks()
 	rng := vx.NewRng(*seed)
 	st := vx.NewStats("a script is non-trivial if it accepts >= 2 tasks and contains a Shutdown before the clean-up; a free run if >= 1 task was submitted while a Shutdown/Start cycle ran; distinct = distinct (config, script) / (config, seed)")
@@ -1060,7 +1083,16 @@ func main() {
 	}
 	var scripts []*scriptCase
 	scripts = append(scripts, directed()...)
-	scripts = append(scripts, allBusyFamily()...)
+	if debugMode {
+		// the small end of the all-workers-busy family and the default worker count (the large counts run in the default mode)
+		for _, sc := range allBusyFamily() {
+			if sc.Workers <= 3 || strings.HasSuffix(sc.Name, "-default-workers") {
+				scripts = append(scripts, sc)
+			}
+		}
+	} else {
+		scripts = append(scripts, allBusyFamily()...)
+	}
 	sr := rng.Fork()
 	for i := 0; i < *nScripts; i++ {
 		scripts = append(scripts, randomScript(sr, i))
@@ -1071,6 +1103,7 @@ func main() {
 			st.Count("script:skipped-after-5-failures")
 			continue
 		}
+		noteCase("script", sc)
 		res := runScript(sc)
 		if len(res.Obs) == 0 { // the pool could not even be made
 			failures++
@@ -1138,6 +1171,7 @@ func main() {
 			st.Count("free:skipped-after-failures")
 			continue
 		}
+		noteCase("free", fc)
 		res := runFree(fc)
 		st.CaseIndex = append(st.CaseIndex, fc)
 		st.Case(fmt.Sprintf("%v", *fc), fc.Cycles > 0)
@@ -1159,6 +1193,60 @@ func main() {
 			st.Fail(map[string]any{"kind": "free", "case": fc, "problems": res.Problems})
 		}
 	}
+	// DebounceFunc (Go-side oracle only; not part of the cases file)
+	{
+		dr := vx.NewRng(*seed ^ 0xdeb0) // own stream: the scripts / free runs of a seed stay what they were
+		dcs := directedDebounce()
+		for i := 0; i < *nDeb; i++ {
+			dcs = append(dcs, genDebounce(dr, i))
+		}
+		bad := 0
+		for _, dc := range dcs {
+			if bad >= 3 {
+				st.Count("debounce:skipped-after-failures")
+				continue
+			}
+			noteCase("debounce", dc)
+			problems, hang := runDebounce(dc)
+			st.Case(fmt.Sprintf("debounce%v", *dc), len(dc.Bursts) > 0 && dc.Bursts[0] >= 2)
+			st.Count("debounce:workers=" + fmt.Sprint(dc.Workers))
+			for k, n := range dc.Bursts {
+				if dc.Gated[k] && n >= 3 && dc.Workers >= 2 {
+					st.Count("debounce:round-with-2-superseded-invocations-behind-an-executing-one")
+				}
+			}
+			if dc.SdEarly {
+				st.Count("debounce:shutdown-while-burst-pending")
+			}
+			if len(problems) > 0 {
+				bad++
+				if hang {
+					bad = 3
+				}
+				st.Fail(map[string]any{"kind": "debounce", "mode": modeText(), "case": dc, "problems": problems})
+			}
+		}
+	}
+	if debugMode {
+		// the mode is switched while tasks execute / are queued (both directions)
+		for i, mc := range []*modeSwitchCase{
+			{Workers: 1, Cancel: true, Via: "new", ToDebug: true, Backlog: 3, SdFirst: true},
+			{Workers: 2, Cancel: false, Via: "group", ToDebug: true, Backlog: 2},
+			{Workers: 2, Cancel: true, Via: "group", ToDebug: false, Backlog: 3, SdFirst: true},
+			{Workers: 3, Cancel: false, Via: "new", ToDebug: false, Backlog: 1, SdFirst: true},
+			{Workers: 1, Cancel: false, Via: "new", ToDebug: true, Backlog: 0},
+		} {
+			noteCase("modeswitch", mc)
+			problems := runModeSwitch(mc)
+			st.Case(fmt.Sprintf("modeswitch%d", i), true)
+			st.Count("debug:mode-switched-while-tasks-execute")
+			if len(problems) > 0 {
+				st.Fail(map[string]any{"kind": "modeswitch", "case": mc, "problems": problems})
+			}
+		}
+		st.Count("debug:runs-with-debug.SetEnabled(true)")
+	}
+	st.Extra["c16_exported_api_driven"] = apiDriven
 	st.Extra["c16_worker_counts_sampled"] = map[string]any{
 		"num_cpu": runtime.NumCPU(), "machine_derived": machineWorkerCounts(), "default_when_option_left_out": 2 * runtime.NumCPU(),
 		"note": "the pool model and its theorems are parametric in the worker count n >= 1; the lockstep correspondence now also samples large n: every value of machine_derived and the default, each with all workers busy at Shutdown (family allbusy-*), besides 1..4",
